@@ -97,8 +97,12 @@ def _corpus_chunk(items):
             for i in rnd.sample(ws, min(len(ws), it["n"])):
                 variants.append(("comment", "".join(t.raw if k != i else " /* c;x */ " for k, t in enumerate(toks))))
                 variants.append(("newline", "".join(t.raw if k != i else "\n" for k, t in enumerate(toks))))
+                variants.append(("line_comment", "".join(t.raw if k != i else " -- c;x\n" for k, t in enumerate(toks))))
         variants.append(("upper", "".join(t.raw.upper() if t.type == "word" else t.raw for t in toks)))
         variants.append(("semicolons", sql.rstrip().rstrip(";") + ";;"))
+        # two rewrites together: extra semicolons with a comment between them
+        variants.append(("semicolons_block_comment", sql.rstrip().rstrip(";") + "; /* c */ ;"))
+        variants.append(("semicolons_line_comment", sql.rstrip().rstrip(";") + ";\n-- c\n;"))
         base = drive.dump(sql, dia, metadata=it["metadata"], want_graph=False)
         if base["exc"] != "none":
             continue
@@ -127,7 +131,10 @@ def corpus_part(chk, quick, rnd):
     items = [dict(c, seed=rnd.randrange(1 << 30), n=2 if quick else 12) for c in inputs.corpus_items() if c["origin"] == "tests" or not quick]
     if quick:
         rnd.shuffle(items)
-        items = items[:220]
+        # statements with a query nested in an expression (scalar subqueries: text handed to a second parser) are always in,
+        # rewritten at many boundaries
+        nested = [dict(c, n=24) for c in items if "scalar_subquery_in_select_list" in (features.features(c["sql"], c["dialect"]) or [])][:12]
+        items = nested + items[:220]
     pool = mp.Pool(16)
     try:
         res = pool.map(_corpus_chunk, stmt_variants.chunks(items, 96))
